@@ -5,7 +5,7 @@ RE-ast(s): every AST with exactly s nodes over LEAVES / star / cat / alt, with r
 """
 from itertools import product
 
-TOKENS = ["a", "b", "ab", " ", ".", "|", "+", "*", "(", ")", "epsilon", "$", "\\|", "\\*", "\\("]
+TOKENS = ["a", "b", "ab", " ", ".", "|", "+", "*", "(", ")", "epsilon", "$", "\\|", "\\*", "\\(", "\\$"]
 
 
 def tok_texts(lmin, lmax):
@@ -18,7 +18,7 @@ def tok_text(case):
     return "".join(TOKENS[i] for i in case[1])
 
 
-LEAVES = [("sym", "a"), ("sym", "b"), ("eps",), ("sym", "|")]
+LEAVES = [("sym", "a"), ("sym", "b"), ("eps",), ("sym", "|"), ("sym", "$")]
 _AST = {}
 
 
